@@ -50,6 +50,40 @@ def malformed_listing(rng):
     return "\n".join(before + [line]) + ("\n" if rng.random() < 0.5 else "")
 
 
+def long_listing(rng, size, malformed):
+    """A listing of about `size` bytes: filler (comment-only, blank, pipe-free and overwritten data
+    lines) up to the size, then data lines that must still be loaded - or a malformed line that
+    must still be refused."""
+    lines, mem, total = [], {}, 0
+    target = size - rng.choice([0, 1, 30, 45, 46, 47, 200])
+    while total < target:
+        r = rng.random()
+        if r < 0.5:
+            l = " " * 28 + "| # " + "filler " * rng.randint(0, 6)
+        elif r < 0.6:
+            l = ""
+        elif r < 0.7:
+            l = "# no pipe " + "x" * rng.randint(0, 60)
+        else:
+            a = rng.randrange(0x1000)
+            data = bytes(rng.getrandbits(8) for _ in range(rng.randint(1, 10)))
+            l = "0x%03x: %-20s | .byte" % (a, data.hex())
+            for i, b in enumerate(data):
+                mem[a + i] = b
+        lines.append(l)
+        total += len(l) + 1
+    for _ in range(rng.randint(1, 4)):
+        a = rng.randrange(0x1000)
+        data = bytes(rng.getrandbits(8) | 1 for _ in range(rng.randint(1, 10)))
+        lines.append("0x%03x: %-20s | tail" % (a, data.hex()))
+        for i, b in enumerate(data):
+            mem[a + i] = b
+    if malformed:
+        lines.append("0x%03x: zz                   | bad" % rng.randrange(0x1000))
+        lines += [" " * 28 + "| after"] * rng.randint(0, 2)
+    return "\n".join(lines) + "\n", mem
+
+
 def check(report, tier, seed):
     rng = random.Random(seed)
     n = 3000 if tier == "quick" else 60000
@@ -72,6 +106,16 @@ def check(report, tier, seed):
         cid = "yc%d" % j
         cases[cid] = {"text": text, "kind": "corner"}
         lines.append("%s yo %s" % (cid, lib.hexs(text)))
+    # long listings: around every buffer size a reader could have (4 KiB .. 1 MiB)
+    sizes = [4096, 8192, 16384, 65536, 131072] if tier == "quick" else [4096, 8192, 16384, 32768, 65536, 131072, 262144, 1048576] * 4
+    for j, size in enumerate(sizes):
+        for bad in (False, True):
+            cid = "yl%d%s" % (j, "b" if bad else "")
+            text, mem = long_listing(rng, size, bad)
+            if not bad:
+                expect[cid] = mem
+            cases[cid] = {"text": text, "kind": "long-malformed" if bad else "long"}
+            lines.append("%s yo %s" % (cid, lib.hexs(text)))
     # files that are not valid UTF-8 (an I/O error for the reader): refused whole, wherever the bad byte is
     raw_cases = {}
     for j in range(60 if tier == "quick" else 1000):
@@ -108,6 +152,10 @@ def check(report, tier, seed):
             report.violation("yo-panic", "the loader crashed on %r" % c["text"][:60], rep)
             continue
         res[c["kind"] + ":" + a[0].split(" ")[0]] += 1
+        if c["kind"] == "long-malformed" and not a[0].startswith("err UnparseableLine"):
+            report.violation("yo-wrong-image", "a malformed line %d bytes into the listing was not refused: %s" % (c["text"].find(": zz"), a[0][:80]),
+                             {"impl": a[0][:300], "size": len(c["text"]), "tail": c["text"][-300:]})
+            continue
         if cid in expect:
             want = ",".join("%x=%02x" % kv for kv in sorted(expect[cid].items())) or "-"
             if c["text"] == "":
@@ -124,6 +172,6 @@ def check(report, tier, seed):
     report.coverage["rule"] = ("valid listings (any address 0x000-0xfff, 0-10 bytes, upper/lower hex, overlapping lines, comment-only, blank and "
                                "pipe-free lines, LF/CRLF, with/without final newline) judged against the generator's own byte map; malformed lines "
                                "(every truncation, one column replaced/inserted by blank g + | : e-acute NUL heart, odd digit counts) and corner files, "
-                               "all compared with the model; files with a byte sequence that is not valid UTF-8 on any line (refused whole); distinct = distinct file texts")
+                               "all compared with the model; long listings (4 KiB - 128 KiB, thorough 1 MiB) whose last data lines / malformed line lie beyond the size; files with a byte sequence that is not valid UTF-8 on any line (refused whole); distinct = distinct file texts")
     report.coverage["distribution"] = dict(res)
     report.coverage["samples"] = [cases["y0"]["text"], cases["y1"]["text"]]
